@@ -1371,11 +1371,16 @@ func vConnCase(v *vSeq, out *vOut, seed int64, idx int, risky bool, pendFile str
 			}
 			close(done)
 		}()
-		x.open('b', false)
-		x.open([]byte{'b', 'b', 't'}[x.r.Intn(3)], false)
-		nsteps := 10 + x.r.Intn(30)
-		for i := 0; i < nsteps && x.dead == ""; i++ {
-			x.step()
+		if idx < len(vConnScripts) {
+			vConnScripts[idx](x)
+			out.stat("scripted-case")
+		} else {
+			x.open('b', false)
+			x.open([]byte{'b', 'b', 't'}[x.r.Intn(3)], false)
+			nsteps := 10 + x.r.Intn(30)
+			for i := 0; i < nsteps && x.dead == ""; i++ {
+				x.step()
+			}
 		}
 		x.finale()
 	}()
@@ -1415,6 +1420,92 @@ func vConnCase(v *vSeq, out *vOut, seed int64, idx int, risky bool, pendFile str
 		out.stat("case-ended-" + x.dead)
 	}
 	return x.dead == "" && bad == ""
+}
+
+// vConnScripts: the corpus — minimal lifetimes run before the generated ones (case index = position)
+var vConnScripts = []func(x *vConnRun){
+	// 0: wills of a text connection
+	func(x *vConnRun) {
+		x.open('b', false)
+		t := x.open('t', false)
+		w := &vConnWill{typ: "L0", imm: true, key: x.newKey(), tok: x.nextTok}
+		x.nextTok++
+		x.will(t, w)
+		x.close(t, 'c')
+	},
+	// 1: a connection that never announced an id leaves a queued request behind; somebody announces the all-zero id
+	func(x *vConnRun) {
+		o := x.open('b', false)
+		a := x.open('b', false)
+		h := x.request(o, 'L', x.newKey(), 0, 0, 60)
+		x.toks[h].long = true
+		x.request(a, 'L', x.toks[h].key, 0, 3, 60)
+		x.close(a, 'c')
+		z := x.open('b', false)
+		x.init(z, 0)
+		for i := 0; i < 5 && x.dead == ""; i++ {
+			x.tick()
+		}
+	},
+	// 2 (child process): INIT + will + close
+	func(x *vConnRun) {
+		a := x.open('b', false)
+		x.init(a, 77)
+		w := &vConnWill{typ: "L0", imm: true, key: x.newKey(), tok: x.nextTok}
+		x.nextTok++
+		x.will(a, w)
+		x.close(a, 'c')
+	},
+	// 3: same-id reconnect before the close: three wills (one waits in the engine), replies go to the reconnected connection
+	func(x *vConnRun) {
+		o := x.open('b', false)
+		a := x.open('b', false)
+		x.init(a, 7)
+		pin := x.request(o, 'L', x.newKey(), 0, 0, 60)
+		x.toks[pin].long, x.toks[pin].pin = true, true
+		own := x.request(a, 'L', x.newKey(), 0, 0, 60)
+		x.toks[own].long, x.toks[own].wtgt = true, true
+		queued := x.request(a, 'L', x.toks[pin].key, 0, 4, 60)
+		_ = queued
+		ws := []*vConnWill{{typ: "L0", imm: true, key: x.newKey()}, {typ: "Lw", imm: false, key: x.toks[pin].key}, {typ: "Uo", imm: true, key: x.toks[own].key, target: own}}
+		for _, w := range ws {
+			w.tok = x.nextTok
+			x.nextTok++
+			x.will(a, w)
+		}
+		b := x.open('b', false)
+		x.init(b, 7)
+		x.close(a, 'e')
+		x.close(a, 's')
+		for i := 0; i < 6 && x.dead == ""; i++ {
+			x.tick()
+		}
+	},
+	// 4: order: the observer waits on three keys the subject holds; the subject's wills release them as 2, 3, 1
+	func(x *vConnRun) {
+		o := x.open('b', false)
+		a := x.open([]byte{'b'}[0], false)
+		var hs []int
+		for i := 0; i < 3; i++ {
+			h := x.request(a, 'L', x.newKey(), 0, 0, 60)
+			x.toks[h].long, x.toks[h].wtgt = true, true
+			hs = append(hs, h)
+			x.request(o, 'L', x.toks[h].key, 0, 9, 60)
+		}
+		l0 := &vConnWill{typ: "L0", imm: true, key: x.newKey(), tok: x.nextTok}
+		x.nextTok++
+		x.will(a, l0)
+		for _, i := range []int{1, 2, 0} {
+			w := &vConnWill{typ: "Uo", imm: true, key: x.toks[hs[i]].key, target: hs[i], tok: x.nextTok}
+			x.nextTok++
+			x.will(a, w)
+		}
+		uw := &vConnWill{typ: "Uw", imm: true, key: l0.key, target: l0.tok, pair: l0, tok: x.nextTok}
+		l0.pair = uw
+		x.nextTok++
+		x.will(a, uw)
+		x.close(a, 's')
+	},
 }
 
 func vConnChild(seed int64, idx int, parent *vOut) {
@@ -1508,7 +1599,7 @@ func init() {
 		}
 		v := vNewSeq(1, 0xff)
 		for i := 0; i < n; i++ {
-			if every > 0 && i%every == every-1 {
+			if i == 2 || (every > 0 && i%every == every-1) {
 				vConnChild(seed, i, out)
 				continue
 			}
